@@ -1,5 +1,5 @@
 """property -> rules registry (claimed properties only)"""
-from . import rules_state, rules_arith, rules_except, rules_guard, rules_slice, rules_types, rules_dep, rules_order
+from . import rules_state, rules_arith, rules_except, rules_guard, rules_slice, rules_types, rules_dep, rules_order, rules_cache
 
 RULES = {
     "P1": rules_state.rule_P1,
@@ -19,6 +19,9 @@ RULES = {
     "D1": rules_dep.rule_D1,
     "L1": rules_order.rule_L1,
     "L2": rules_order.rule_L2,
+    "K1": rules_cache.rule_K1,
+    "K2": rules_cache.rule_K2,
+    "K3": rules_cache.rule_K3,
 }
 
 SELFTESTS = {"T1": rules_types.selftest_T1}
@@ -80,6 +83,21 @@ PROPS = {
                        "plan objects handed out as shared_ptr, on which only const operations exist and these must not write "
                        "object-reachable storage (P1: mutable members, const-removing casts, writes and non-const calls/arguments "
                        "rooted at pointer-like members, in every const method of every plan class).",
+    },
+    "C10": {
+        "id": "C10",
+        "title": "Transform results do not depend on call history; plan caching is transparent",
+        "rules": ["K1", "K2", "K3", "P1", "P2"],
+        "clause": "cached plans are immutable (const operations write no object state) and are built deterministically from their "
+                  "key (no mutable shared statics); lookup, creation and insertion use the same unmodified key and the inserted "
+                  "value is the plan built for it; plans are handed out and held by shared ownership, so an evicted plan stays "
+                  "alive; list and map updates of the LRU are paired in every control region; both caches have the configured "
+                  "capacity and evict against it",
+        "not_decided": "that eviction picks the least recently used key (recency order is a run-time history property)",
+        "explanation": "Any plan returned for n was built by the factory for n (K1), is immutable (P1) and was built "
+                       "deterministically from n (P2, K1), so results cannot depend on which other lengths were requested; K2 keeps "
+                       "the map free of dangling list iterators on every path (the failure needs a fifth distinct length to show); "
+                       "K3 ties the capacity to DSPLIB_FFT_CACHE_SIZE (folded constant) in every analysed configuration.",
     },
     "C12": {
         "id": "C12",
